@@ -58,13 +58,13 @@ wf:
 """
 
 
-def _diamond_case(shape, preemptions, sym_ids):
+def _diamond_case(shape, preemptions, sym_ids, sym_order=False):
     def case():
         from vt.world import World
         from vt.explorer import Explorer
         sig = 'C05.E:%s' % shape
         text = shapes.DATA_SHAPES[shape]
-        w = World([text], sym_ids=sym_ids)
+        w = World([text], sym_ids=sym_ids, sym_upstream_order=sym_order)
         with w:
             ex = Explorer(w, sig, preemptions=preemptions)
             wid = w.start('wf')
@@ -108,6 +108,24 @@ def _diamond_case(shape, preemptions, sym_ids):
                     check((j['published'] or {}).get('seen_inp') == 'I',
                           'workflow-input-not-visible',
                           inf('input', got=j['published']))
+            elif shape == 'data_flow_chain':
+                check(ctx_.get('v') == 'from_a2' and
+                      ctx_.get('w') == 'from_c',
+                      'join-sees-stale-values',
+                      inf('stale', got=[ctx_.get('v'), ctx_.get('w')]))
+                wf_ = w.wf_ex(wid)
+                if wf_['state'] == 'SUCCESS':
+                    check((wf_['output'] or {}).get('v') == 'from_a2',
+                          'workflow-output-has-stale-value',
+                          inf('stale-output', got=wf_['output']))
+            elif shape == 'data_flow_jj':
+                check(ctx_.get('v') == 'from_d', 'join-sees-stale-values',
+                      inf('stale', got=ctx_.get('v')))
+                wf_ = w.wf_ex(wid)
+                if wf_['state'] == 'SUCCESS':
+                    check((wf_['output'] or {}).get('v') == 'from_d',
+                          'workflow-output-has-stale-value',
+                          inf('stale-output', got=wf_['output']))
             else:
                 check([ctx_.get('p'), ctx_.get('q'), ctx_.get('r')] ==
                       ['p_b', 'q_c', 'r_a'],
@@ -200,7 +218,10 @@ def _pub_case(text, name, preemptions=0):
                'mistral.expressions:evaluate_recursively'],
     bounds={'quick': 'diamond (root publishes x, z nested, cfg 3 deep; one '
                      'branch republishes parts of them, the other publishes '
-                     'y / publish-on-error) and a 3-branch fan-in; outcomes '
+                     'y / publish-on-error), a 3-branch fan-in, a 3-way join '
+                     'fed by a chain that re-publishes a variable born in a '
+                     'branch, a join after a join; listing order of the '
+                     'unordered upstream SELECT symbolic; outcomes '
                      'symbolic; completion order with <= 1 out-of-order '
                      'delivery; task id order (ORDER BY id of random uuids) '
                      'symbolic; default configuration',
@@ -222,6 +243,15 @@ def c05_e(ctx):
                    needed=['quiescent', 'join-ran'])
         yield Case(shape + '/ids', _diamond_case(shape, 0, True),
                    needed=['quiescent', 'join-ran'])
+    for shape in ('data_flow', 'data_flow_3', 'data_flow_chain',
+                  'data_flow_jj'):
+        # the order in which the unordered upstream SELECT lists the rows
+        yield Case(shape + '/upstream-order',
+                   _diamond_case(shape, 0, False, sym_order=True),
+                   needed=['quiescent', 'join-ran'])
+        if shape.startswith('data_flow_') and shape != 'data_flow_3':
+            yield Case(shape + '/order', _diamond_case(shape, k, False),
+                       needed=['quiescent', 'join-ran'])
 
 
 @obligation(
